@@ -13,12 +13,57 @@ WEIGHTS = {"call": 30, "signal": 14, "reply": 12, "request": 14, "release": 5, "
            "forged": 3, "query": 2, "driver_edge": 1, "badtype": 2, "nodest": 1, "garbage": 1, "removematch": 1}
 
 
+def frozen_clause(i, op, per, tk, bad, dropped=()):
+    """a batch the daemon found all at once (calls, and hang-ups of their addressees among them): whatever order it served
+    them in, a method call whose sender is still there was either delivered once to a connection entitled to the name, or
+    answered by the bus with exactly one error - never both, never neither"""
+    closing = {s[1] for s in op[1] if s[0] == "close"}
+    sends = [s for s in op[1] if s[0] == "send"]
+    lines = buscheck.decode_sent([s[2] for s in sends])
+    seen = set()
+    for s, l in zip(sends, lines):
+        a = s[1]
+        if l is None or a in closing or a in dropped or a not in tk.names or fld(l, "t") != "1":
+            continue
+        d = hexname(fld(l, "dest"))
+        if d is None or d == BUS or tk.primary(d) == "?":
+            continue
+        key = (a, fld(l, "ser"))
+        if key in seen or sum(1 for s2, l2 in zip(sends, lines) if l2 and s2[1] == a and fld(l2, "ser") == fld(l, "ser")) > 1:
+            continue            # a reused serial: copies and errors cannot be told apart
+        seen.add(key)
+        me = tk.names[a]
+        if d.startswith(":"):
+            entitled = [c for c, n in tk.names.items() if n == d and c in tk.live]
+        else:
+            entitled = [x[0] for x in tk.queues.get(d, [])]
+        alive = [c for c in entitled if c not in closing]
+        def is_copy(x):
+            return hexname(fld(x, "sender")) == me and fld(x, "ser") == fld(l, "ser") and fld(x, "t") == "1"
+        copies = {to: len([x for x in ls if is_copy(x)]) for to, ls in per.items()}
+        errs = len([x for x in per.get(a, []) if fld(x, "t") == "3" and fld(x, "rs") == fld(l, "ser") and hexname(fld(x, "sender")) == BUS and not is_copy(x)])
+        to_entitled = sum(copies.get(c, 0) for c in alive)
+        stray = [to for to, n in copies.items() if n and to not in alive and to not in tk.eaves]
+        if stray:
+            bad.append((None, "step %d (frozen batch): call %s#%s -> %s reached connection %s, which is not entitled to it" % (i, me, fld(l, "ser"), d, stray)))
+        expects_reply = int(fld(l, "f") or 0) % 2 == 0
+        gone_owner = bool(entitled) and entitled[0] in closing
+        total = to_entitled + errs
+        if total > 1 or (total == 0 and (expects_reply or not gone_owner)):
+            bad.append((None, "step %d (frozen batch): call %s#%s -> %s (entitled: %s, hanging up in the same batch: %s) was delivered %d times and "
+                        "answered with %d errors by the bus" % (i, me, fld(l, "ser"), d, entitled, sorted(closing & set(entitled)), to_entitled, errs)))
+
+
 def oracle(tr):
     bad = []
     tk = Tracker()
     for i, (per, closed) in enumerate(tr.steps):
         tk.before(i, tr)
         op = tr.ops[i]
+        if op[0] == "frozen":
+            frozen_clause(i, op, per, tk, bad, dropped=closed)
+            tk.after(i, tr)
+            continue
         sent = tr.sent(i) if op[0] == "send" else None
         actor = op[1] if op[0] == "send" else None
         if sent and actor in tk.names and fld(sent, "t") in ("1", "2", "3", "4"):
@@ -67,6 +112,9 @@ def run(ctx):
     # recipients that do not read: their queue at the bus is over max_outgoing_bytes until they read again
     buscheck.run_histories(ctx, n // 2, 80, oracle, gen_kw={"weights": dict(WEIGHTS, stall=5, unstall=4), "max_conns": 4, "no_eavesdrop": True},
                            limits={"outgoing": 20000}, findings=findings, seed_salt=9, label="slow-readers")
+    # schedules: the daemon is held while clients write and hang up, and finds it all in one turn of its main loop
+    buscheck.run_histories(ctx, n // 2, 70, oracle, gen_kw={"weights": dict(WEIGHTS, frozen=22, close=2, connect=8, hello=7), "max_conns": 5,
+                           "names": [b"com.example.A", b"org.x"]}, findings=findings, seed_salt=11, label="frozen-batches")
 
 
 def replay(path):
